@@ -1,6 +1,6 @@
 """E-IR build pipeline: repo C++ units + C++ harness -> LLVM IR -> one module ->
 ir2c -> goto-cc; and the native builds used for replay / translator validation."""
-import os, re, hashlib, threading, json
+import os, re, hashlib, threading, json, time
 from . import runner as R
 from . import ir2c
 
@@ -41,6 +41,22 @@ def compile_tu(run, src, flags, tag):
         rc, o, e, w, rss, to = R.sh(cmd, timeout=300)
         if rc != 0:
             return None, 'clang failed on %s: %s' % (src, (e or o)[-1500:])
+        os.rename(out + '.tmp', out)
+    return out, ''
+
+
+def compile_native_tu(run, src, cmd):
+    """g++ -c one repo unit, cached per run by (path, command)."""
+    cache = os.path.join(run.work, 'ocache')
+    os.makedirs(cache, exist_ok=True)
+    h = hashlib.sha1((src + '\0' + ' '.join(cmd)).encode()).hexdigest()[:16]
+    out = os.path.join(cache, '%s-%s.o' % (re.sub(r'\W', '_', os.path.basename(src)), h))
+    with _keylock(out):
+        if os.path.exists(out):
+            return out, ''
+        rc, o, e, w, rss, to = R.sh(cmd + ['-c', src, '-o', out + '.tmp'], timeout=600)
+        if rc != 0:
+            return None, (e or o)
         os.rename(out + '.tmp', out)
     return out, ''
 
@@ -130,20 +146,38 @@ def validate(run, ob, wdir, cfile):
     if rc != 0:
         return None, 0, 'gcc failed on generated C: ' + (e or o)[-600:]
     orig = os.path.join(wdir, 'tv_orig')
-    common = R.REAL_DEFS + R.REPO_INCS + ['-I' + R.HARN] + chip_defs(ob) + ['-D' + d for d in ob.all_defines(run.tier)]
+    # the repo's units are compiled once per run and flag set (no obligation defines: the same split as in build()),
+    # only the harness is compiled per obligation
+    base = R.REAL_DEFS + R.REPO_INCS + ['-I' + R.HARN] + chip_defs(ob)
+    common = base + ['-D' + d for d in ob.all_defines(run.tier)]
     rt2 = os.path.join(wdir, 'tv_rt2.o')
     R.sh(['gcc', '-O1', '-c', os.path.join(R.HARN, 'native_rt.c'), '-DVERIF_ENTRY=' + ob.entry, '-o', rt2], timeout=120)
-    cmd = ['g++', '-std=gnu++98', '-O1', '-ffunction-sections', '-fdata-sections', '-no-pie', '-Wl,--gc-sections', '-fno-access-control', '-w', '-DNATIVE_REPLAY'] + common + \
-        [os.path.join(R.HARN, ob.src)] + native_sources(ob) + [rt2, '-o', orig, '-lm', '-Wl,--unresolved-symbols=ignore-all']
+    gxx = ['g++', '-std=gnu++98', '-O1', '-ffunction-sections', '-fdata-sections', '-fno-access-control', '-w', '-DNATIVE_REPLAY']
+    objs = []
+    for src in native_sources(ob):
+        o, err = compile_native_tu(run, src, gxx + base)
+        if o is None:
+            return None, 0, 'g++ failed on %s: %s' % (src, err[-600:])
+        objs.append(o)
+    cmd = gxx + ['-no-pie', '-Wl,--gc-sections'] + common + [os.path.join(R.HARN, ob.src)] + objs + \
+        [rt2, '-o', orig, '-lm', '-Wl,--unresolved-symbols=ignore-all']
     rc, o, e, w, rss, to = R.sh(cmd, timeout=600)
     if rc != 0:
         return None, 0, 'g++ failed on original harness: ' + (e or o)[-600:]
+    # Vectors that stop at an assume() (exit 77) are still compared up to that point, but only vectors that get past
+    # every assumption count as validated traces.  How many of a fixed number of pseudo-random vectors do so depends on
+    # the seed, so vectors are drawn until nvec of them have passed all assumptions, at most 300 attempts (a fixed number, so
+    # that the count is reproducible for a given seed; the 120 s limit is only a backstop for a harness whose native run is slow).
     agree = 0
     ran = 0
     effective = 0
-    for i in range(nvec):
+    t0 = time.time()
+    max_attempts = max(nvec, 300)
+    for i in range(max_attempts):
+        if effective >= nvec or (i >= nvec and time.time() - t0 > 120):
+            break
         env = dict(os.environ)
-        env['VERIF_SEED'] = str(run.seed * 1000 + i + 1)
+        env['VERIF_SEED'] = str(run.seed * 100000 + i + 1)
         env['VERIF_SMALL'] = '1'
         env.pop('VERIF_VALUES', None)
         r1 = R.sh([gen], timeout=20, env=env, cwd=wdir)
@@ -159,4 +193,4 @@ def validate(run, ob, wdir, cfile):
         agree += 1
         if r1[0] != 77:
             effective += 1
-    return True, effective, 'vectors run: %d, past all assumptions: %d' % (agree, effective)
+    return True, effective, 'vectors run: %d (all agree), past all assumptions: %d (target %d)' % (agree, effective, nvec)
